@@ -3,6 +3,7 @@ import json, os, random, time, hashlib
 import common as C
 import gen_msg as GM
 import wire as W
+import gen_nc as GN
 
 
 def hostile_hex(p):
@@ -41,6 +42,14 @@ def sched_hash(s):
     return hashlib.sha1(json.dumps(s["steps"], sort_keys=True).encode()).hexdigest()[:16]
 
 
+def nontrivial_nc(s):
+    """A netcode schedule is non-trivial if it presents at least one datagram and contains an attack, fault or time-out step."""
+    pres = any(st["a"] in ("sdeliver", "cdeliver", "pump") for st in s["steps"])
+    fault = any(st["a"] in ("scraft", "ccraft", "sraw", "craw", "srequest", "tokenbytes", "setmax") or "mut" in st or "from" in st
+                or (st["a"] in ("supdate", "cupdate") and st.get("dt", 0) >= 1000) for st in s["steps"])
+    return pres and fault or any(st["a"] == "tokenbytes" for st in s["steps"])
+
+
 def nontrivial_msg(s):
     """A message-layer schedule is non-trivial if it delivers something and injects at least one fault."""
     has_del = any(st["a"] in ("deliver", "round") for st in s["steps"])
@@ -61,6 +70,8 @@ def signature(pid, flag, ev):
     for k in ("cause", "shape", "ctx"):
         if k in ev:
             sig[k] = ev[k]
+        elif isinstance(ev.get("d"), dict) and k in ev["d"]:
+            sig[k] = ev["d"][k]
     return sig
 
 
@@ -216,7 +227,7 @@ def run_check(pid, tier, replay=None):
         for s in scheds:
             h = sched_hash(s)
             hashes.add(h)
-            if plan.world != "msg" or nontrivial_msg(s):
+            if (plan.world == "msg" and nontrivial_msg(s)) or (plan.world == "nc" and nontrivial_nc(s)):
                 nontriv.add(h)
         if len(samples) < 3 and scheds:
             s = scheds[0]
@@ -423,12 +434,47 @@ def g_random_timing(rng, tier, props):
     return out
 
 
+def g_nc_payload(rng, tier, props):
+    return GN.payload_histories(rng, props, n_of(tier, 150, 3000), tier != "quick")
+
+
+def g_nc_handshake(rng, tier, props):
+    return GN.handshake_histories(rng, props, n_of(tier, 250, 5000), tier != "quick") + GN.expiry_histories(rng, props)
+
+
+def g_nc_shapes(rng, tier, props):
+    return GN.shape_schedules(rng, props, tier != "quick") + GN.token_byte_schedules(rng, props, tier != "quick")
+
+
+def g_nc_bits(rng, tier, props):
+    return GN.bit_schedules(rng, props, tier != "quick")
+
+
+def g_nc_live(rng, tier, props):
+    return GN.liveness_schedules(rng, props, n_of(tier, 200, 4000), tier != "quick")
+
+
+NC_ASSUME = [
+    "TLC (trace monitor) and the observer module spec/NetcodeObs.tla are the oracle",
+    "symbolic reading of the AEAD: the chacha20poly1305 crate, the OS RNG and key secrecy are trusted",
+    "datagram labels (genuine / replay / re-addressed / mutated / crafted) are ground truth by construction of the harness; datagrams are opened "
+    "with the keys the harness issued, through the crate's own codec behind the `verif` feature",
+]
+
 MSG_ASSUME = [
     "TLC (trace monitor) and the observer module spec/RenetObs.tla are the oracle",
     "harness projection functions (content interning, packet description through the crate's own decoder behind the `verif` feature)",
 ]
 
 PLANS = {
+    "C04": Plan("nc", "TraceNetcodeMon", ["C04"], [("payload_histories", g_nc_payload)], assumptions=NC_ASSUME),
+    "C05": Plan("nc", "TraceNetcodeMon", ["C05"], [("handshake_histories", g_nc_handshake)], assumptions=NC_ASSUME),
+    "C07": Plan("nc", "TraceNetcodeMon", ["C07"], [("shapes", g_nc_shapes), ("bits", g_nc_bits), ("handshake_histories", g_nc_handshake)], assumptions=NC_ASSUME),
+    "C10": Plan("nc", "TraceNetcodeMon", ["C10"], [("handshake_histories", g_nc_handshake), ("payload_histories", g_nc_payload)], assumptions=NC_ASSUME),
+    "C17": Plan("nc", "TraceNetcodeMon", ["C17"], [("bits", g_nc_bits), ("handshake_histories", g_nc_handshake), ("payload_histories", g_nc_payload)],
+                assumptions=NC_ASSUME),
+    "C18": Plan("nc", "TraceNetcodeMon", ["C18"], [("liveness", g_nc_live)], assumptions=NC_ASSUME),
+    "C19": Plan("nc", "TraceNetcodeMon", ["C19"], [("handshake_histories", g_nc_handshake), ("shapes", g_nc_shapes)], assumptions=NC_ASSUME),
     "C01": Plan("msg", "TraceRenetMon", ["C01"], [("random_ro", g_random_ro), ("random_mixed", g_random_mixed)],
                 mc=[mc_job("conn_ro", "MC_Conn", {"quick": ["MC_C01_q1.cfg"], "thorough": ["MC_C01_q1.cfg", "MC_C01_t1.cfg"]}, ["C01"])],
                 level="model_checking", assumptions=MSG_ASSUME),
